@@ -192,16 +192,27 @@ def _clause_block(text, mask, p, hi):
     return out
 
 
+def _clean(cl):
+    out = []
+    for t, off in cl:
+        t2 = re.sub(r'/\*.*?\*/', ' ', t, flags=re.S)
+        t2 = re.sub(r'//[^\n]*', ' ', t2)
+        t2 = re.sub(r'\s+', ' ', t2).strip()
+        if t2:
+            out.append((t2, off))
+    return out
+
+
 def _clauses(text, mask, lo, hi, kw):
     ps = _find_kw(text, mask, lo, hi, kw)
     out = []
     for p in ps:
-        out += _clause_block(text, mask, p, hi)
+        out += _clean(_clause_block(text, mask, p, hi))
     return out
 
 
 def _all_clause_blocks(text, mask, lo, hi, kw):
-    return [_clause_block(text, mask, p, hi) for p in _find_kw(text, mask, lo, hi, kw)]
+    return [_clean(_clause_block(text, mask, p, hi)) for p in _find_kw(text, mask, lo, hi, kw)]
 
 
 def count_obligations(fns):
@@ -405,8 +416,8 @@ def run_unit(unit, cfgs=(), rlimit=None, only_fn=None, repo=None, extra=()):
     vr = js.get('verification-results', {}) if js else {}
     return {'unit': unit, 'tag': b.tag, 'build': b, 'fns': fns, 'res': res, 'findings': findings,
             'smt_s': times, 'fn_ok': ok, 'verified': vr.get('verified'), 'errors': vr.get('errors'),
-            'vir_error': vr.get('encountered-vir-error') or vr.get('encountered-error'),
-            'completed': bool(js) and not (vr.get('encountered-vir-error') or vr.get('encountered-error'))}
+            'vir_error': vr.get('encountered-vir-error'),
+            'completed': bool(js) and not vr.get('encountered-vir-error') and vr.get('verified') is not None}
 
 
 def fmt_origin(o):
